@@ -25,7 +25,7 @@ open ParsecVerif.MatrixTypes
 abbrev Mem := List Int
 
 /-- read a cell (outside the block: 0; never happens for well-sized copies) -/
-def rd (m : Mem) (o : Nat) : Int := m.getD o 0
+def rd (m : Mem) (o : Nat) : Int := (m[o]?).getD 0
 
 /-- `MPI_Pack` of one instance of a type with element offsets `offs` -/
 def pack (offs : List Nat) (m : Mem) : List Int := offs.map (rd m)
@@ -90,14 +90,16 @@ structure HState where
   d : DState
   heap : List (Nat × Mem)      -- (handle, contents), allocation order; entry 0 = the producer's copy
 
-/-- the futures that are completed in `d'` but were not in `d` (same position; new futures are created incomplete) -/
-def newlyCompleted : List Fut → List Fut → List Fut
-  | f :: fs, f' :: fs' => (if f.compl = false ∧ f'.compl = true then [f'] else []) ++ newlyCompleted fs fs'
-  | _, _ => []
+def hasKey (heap : List (Nat × Mem)) (v : Nat) : Bool := heap.any (fun e => e.1 = v)
+
+/-- memory effect of a completion: the first time a future shows a tracked value (COMPLETED) that is not yet a copy
+    of the heap, that copy is allocated at the end of the heap (`reshape_copy_allocate`) with the contents written by
+    `parsec_ce.reshape`; nothing else is touched -/
+def addIfNew (env : Env) (heap : List (Nat × Mem)) (fu : Fut) : List (Nat × Mem) :=
+  if fu.compl = true ∧ hasKey heap fu.data = false then heap ++ [(fu.data, copyFor env fu.shape)] else heap
 
 def hstep (cfg : Cfg) (env : Env) (s : HState) (t : Nat) : HState :=
-  { d := dstep cfg s.d t,
-    heap := s.heap ++ (newlyCompleted s.d.futs (dstep cfg s.d t).futs).map (fun fu => (fu.data, copyFor env fu.shape)) }
+  { d := dstep cfg s.d t, heap := (dstep cfg s.d t).futs.foldl (addIfNew env) s.heap }
 
 /-- initial state: the base promise tracks the producer's copy (a fulfilled promise, `pre = true`) or is an
     unfulfilled promise for shape `b`; the producer's tile is the first heap entry (handle 0 is never a future value) -/
